@@ -150,6 +150,7 @@ func (e *Engine) parseContractFile(pkgPath, fn string) error {
 			}
 			sig := strings.TrimSpace(rest[:eq])
 			par := strings.Index(sig, "(")
+			cur = nil
 			pf := &PureFn{Name: sig[:par], Pkg: pkgPath, Sig: sig[par:], Body: strings.TrimSpace(rest[eq+3:]), File: anchorFile, Line: line}
 			e.pures[pkgPath+"."+pf.Name] = pf
 			lastText = &pf.Body
@@ -158,6 +159,7 @@ func (e *Engine) parseContractFile(pkgPath, fn string) error {
 			if col < 0 {
 				return fmt.Errorf("%s:%d: lemma needs 'name:'", fn, line)
 			}
+			cur = nil
 			lm := &Lemma{Name: strings.TrimSpace(rest[:col]), Pkg: pkgPath, Text: strings.TrimSpace(rest[col+1:]), File: anchorFile, Line: line, Props: curProps}
 			e.lemmas = append(e.lemmas, lm)
 			lastText = &lm.Text
